@@ -238,7 +238,7 @@ func (w *world) genMixed(r *Rng) *genTx {
 		}
 		data, gasExec = BuildInitProbe(op, tg, w.erc20Pack("symbol")), 120000
 	case "clock":
-		to, gasExec = &w.clock, 50000
+		to, gasExec = &w.clock, 120000
 	case "multi-touch":
 		to = &w.multi
 		n := 1 + r.Intn(4)
